@@ -7,8 +7,9 @@ coming back), one whose state growth exceeds the proved bound, or one whose wall
 leaves the linear regime.
 
 Every implementation run happens in a supervised worker: address space 2 GB, CPU time 300 s, stack 1 GB (the
-extracted model recurses over 10^6-element lists), wall-clock limits of lib/vcheck.  No case carries a size
-operand above 10^6 or a doubling program with more than 18 doublings.
+extracted model recurses over 10^6-element lists), wall-clock limits of lib/vcheck.  No case that the MODEL runs
+carries a size operand above 10^6 or a doubling program with more than 18 doublings; the implementation alone also
+runs the three vector RAND instructions at 2^24+1 .. 3*10^7 elements (stream huge-rand-vectors, 60 s per case).
 """
 import random, re, resource, sys, time
 import vcheck
@@ -26,7 +27,8 @@ ASSUMPTIONS = [
     "PARTIAL: the model carries a COUNTING argument only (Model/Cost.v: cells held by the state, cells allocated + loop iterations of an instruction body as written). Real RSS, allocator failure and wall-clock time are runtime facts: they are measured on the implementation for the case list of this check (2 GB address space, 300 s CPU per worker; < 2 s per step on states of up to 10^5 cells) and not proved",
     "a printed cell is counted as one cell: the number of characters per printed number (f32 `{:.3}`: up to 47) is a fact about formatting outside FloatOps's interface; CODE.PRINT, GRAPH.PRINT, GRAPH.PRINT*DIFF are therefore outside the one-step growth theorem, and so are NAME.RAND, NAME.RANDBOUNDNAME, CODE.RAND (generated names: their length comes from the oracle tape in the model)",
     "the cost table of Model/Cost.v is read off the Rust source by hand (upper estimates marked); its tie to the code is the growth measurement of this check and the wall-clock stream, not a differential comparison (the implementation exposes no operation counter)",
-    "vector lengths and stack depths stay below 2^31; no case carries a size operand above 10^6 (never i32::MAX) or more than 18 doublings",
+    "vector lengths and stack depths stay below 2^31; no case carries a size operand above 3*10^7 (above 10^6: implementation only, vector RAND; never i32::MAX) or more than 18 doublings",
+    "results holding a vector of more than 2*10^7 characters are cut to the first 400000 characters of that vector before the extracted predicate reads them (weight is monotone: 'exceeds the bound' is preserved); 'the step returned' is observed on the uncut run",
 ]
 TRUSTED_EXTRA = ["checks/C15.py replaces vcheck._limits for its own workers: RLIMIT_AS 2 GB, RLIMIT_CPU 300 s, RLIMIT_STACK 1 GB"]
 
@@ -257,7 +259,8 @@ def impl_only(ctx, name, cases, note, time_limit=None, parallel=1):
             if kf:
                 ctx.known_hits[kf["key"]] = kf["what"]
             else:
-                ctx.violation("the step did not return or grew the state beyond the proved bound", {
+                ctx.violation("the step did not return within %d s (worker killed: %s)" % (CASE_WALL_LIMIT_S, o) if o.startswith("(9") else
+                              "the step panicked" if o == "(1)" else "the step grew the state beyond the proved bound", {
                     "property": ctx.prop, "kind": "predicate-fails", "stream": name, "suite": "run", "checker": "cost.check",
                     "case": c, "impl_output": o[:2000], "how_to_replay": "bin/check C15 --replay <this file>"})
         if time_limit is not None and dt > time_limit and not o.startswith("(9"):
